@@ -3,6 +3,7 @@ package main
 import (
 	"encoding/json"
 	"fmt"
+	ogm "github.com/weedbox/pokertable/open_game_manager"
 	"sort"
 	"sync"
 	"sync/atomic"
@@ -510,10 +511,12 @@ func (d *Drv) stableNow() (stable bool) {
 	}
 	os := o.GetState()
 	forNext := os.GameCount == st.GameCount+1 || (st.GameCount == 0 && os.GameCount == 0 && st.StartAt != -1)
-	if forNext && len(os.Participants) > 1 {
+	// readiness is read from the gate's ready group under its lock (the gate's own participant map is written by its callbacks)
+	grp := ogm.VerifGroupStates(o)
+	if forNext && len(grp) > 1 {
 		all := true
-		for _, p := range os.Participants {
-			if !p.IsReady {
+		for _, ready := range grp {
+			if !ready {
 				all = false
 			}
 		}
